@@ -3,6 +3,9 @@ import TabulaModel.Model.Xref
 import TabulaModel.Model.XrefBytes
 import TabulaModel.Model.XrefFile
 import TabulaModel.Model.XrefNestCache
+import TabulaModel.Model.XrefCached
+import TabulaModel.Model.XrefResolve
+import TabulaModel.Model.XrefTrailer
 /-!
 Ops of C04:
 * `c04.run S=<start> X=<sections> O=<objects> P=<ops>` — the abstract model (Model/Xref.lean);
@@ -20,6 +23,20 @@ Ops of C04:
 * `c04.nest <d> <top> <ops>` — the reader's caches on a chain file of `d` nested integers
   (Model/XrefNestCache.lean): ops `a<i>` / `b<i>` / `s<i>` / `t` = GetObject of `A i` / `B i` / `S i` / `T`,
   `c` = ClearCache; one of `1` (found), `0` (error), `-` (clear) per op.
+* `c04.api <inflate> <file> <maxDepth> <full|probe> <ops>` — the public API on the bytes of a
+  file, WITH the reader's caches (Model/XrefCached.lean) and one long-lived resolver of the
+  resolver package (Model/XrefResolve.lean): `c` ClearCache, `g<n>` GetObject, `r<n>` Resolve,
+  `D<n>` ResolveDeep(n 0 R), `E<n>` ResolveDeep(GetObject(n)); on the resolver `s<n>` Resolve,
+  `p<n>` ResolveDeep, `q<n>` ResolveDeep(GetObject(n)), `u<n>` ResolveReference, `y<n>`
+  ResolveReferenceDeep, `w<n>` GetObject, `z<n>` GetObjectResolved, `x<n>`
+  GetObjectResolvedDeep, `t<n>` ResolveDict/ResolveArray(GetObject(n)), `R` Reset; a reference
+  may carry a generation (`D5.1`). One answer per op: `-` (no answer), `e`, or the value
+  (`full`: rendered; `probe`: depth and leaf along the first and along the last elements).
+* `c04.cat <inflate> <file> <ops>` — `reader.Open` and the calls that start from the trailer
+  (Model/XrefTrailer.lean), mixed with lookups on the cached reader: `g<n>` GetObject, `c`
+  ClearCache, `C` GetCatalog, `I` GetInfo (`nil`: no /Info), `N` NumObjects (`#n`), `T`
+  Trailer(); in front `ver=<a>.<b>` (Version()).
+* `c04.ask <bytes>` — which object `ParseIndirectObject` asks its resolver for (`-`: none).
 `inflate`: `_` or `<in>><out>;…` (zlib's answers, `!` = rejected).
 -/
 namespace Tabula.C04H
@@ -174,6 +191,61 @@ def showPrev : XrefFile.Prev → String
   | .at p => toString p
   | .bad => "bad"
 
+/-- canonical rendering of an API value (the harness renders Go's value the same way) -/
+partial def showD : XrefR.DObj → String
+  | .null => "null"
+  | .bool b => if b then "true" else "false"
+  | .int i => s!"i{i}"
+  | .real _ _ _ => "real"
+  | .str v => "s" ++ hexN v
+  | .name v => "n" ++ hexN v
+  | .arr xs => "[" ++ ",".intercalate (xs.map showD) ++ "]"
+  | .dict kv => showKV kv
+  | .ref n g => s!"{n}.{g}R"
+  | .stream kv data => s!"S{data.length}" ++ showKV kv
+where
+  showKV (kv : List (List Nat × XrefR.DObj)) : String :=
+    let items := kv.foldl (fun acc p => insertKey (p.1, hexN p.1 ++ ":" ++ showD p.2) acc) []
+    "{" ++ ",".intercalate (items.map Prod.snd) ++ "}"
+
+/-- a value too large to render (a shared graph has 2^levels paths): the number of arrays
+along the first / last elements and what stands at the end -/
+partial def probeD (v : XrefR.DObj) : String :=
+  let leaf : XrefR.DObj → String
+    | .int i => s!"i{i}"
+    | .arr [] => "[]"
+    | .ref n g => s!"{n}.{g}R"
+    | _ => "o"
+  let rec walk (last : Bool) (v : XrefR.DObj) (n : Nat) : String :=
+    match v with
+    | .arr (x :: xs) => walk last (if last then (x :: xs).getLastD x else x) (n + 1)
+    | o => s!"{n}:{leaf o}"
+  s!"P{walk false v 0}/{walk true v 0}"
+
+def parseApiOp (s : String) : Option XrefR.Api.Op :=
+  let ref (r : List Char) : Option (Int × Int) :=
+    match (String.ofList r).splitOn "." with
+    | [n] => n.toInt?.map fun n => (n, 0)
+    | [n, g] => do some ((← n.toInt?), (← g.toInt?))
+    | _ => none
+  match s.toList with
+  | ['c'] => some .clear
+  | ['R'] => some .pReset
+  | 'g' :: r => (ref r).map fun p => .get p.1
+  | 'r' :: r => (ref r).map fun p => .resolve p.1 p.2
+  | 'D' :: r => (ref r).map fun p => .deep p.1 p.2
+  | 'E' :: r => (ref r).map fun p => .deepObj p.1
+  | 's' :: r => (ref r).map fun p => .pResolve p.1 p.2
+  | 'p' :: r => (ref r).map fun p => .pDeep p.1 p.2
+  | 'q' :: r => (ref r).map fun p => .pDeepObj p.1
+  | 'u' :: r => (ref r).map fun p => .pRef p.1 p.2
+  | 'y' :: r => (ref r).map fun p => .pRefDeep p.1 p.2
+  | 'w' :: r => (ref r).map fun p => .pGet p.1
+  | 'z' :: r => (ref r).map fun p => .pGetResolved p.1
+  | 'x' :: r => (ref r).map fun p => .pGetDeep p.1
+  | 't' :: r => (ref r).map fun p => .pCont p.1
+  | _ => none
+
 def handleBytes (op : String) (args : List String) : Option String :=
   match op, args with
   | "c04.lines", [h] =>
@@ -225,6 +297,47 @@ def handleBytes (op : String) (args : List String) : Option String :=
             | some v => showPVal v
             | none => "e"
           s!"xref=[{dumpRaw x}] res=[{",".intercalate res}]")
+    | _, _, _ => none
+  | "c04.ask", [h] =>
+    (unhexN h).map fun bs =>
+      match (XrefC.parseIndirectK bs).asked with
+      | some n => toString n
+      | none => "-"
+  | "c04.api", [infl, h, md, mode, ops] =>
+    match parseInflate infl, unhexN h, md.toNat?, (ops.splitOn ",").mapM parseApiOp with
+    | some infl, some bs, some md, some ops =>
+      some (match XrefR.Api.session (mkExt infl) true bs md id ops with
+        | .error _ => "open-err"
+        | .ok res =>
+          ",".intercalate (res.map fun r => match r with
+            | none => "-"
+            | some none => "e"
+            | some (some v) => if mode == "probe" then probeD v else showD v))
+    | _, _, _, _ => none
+  | "c04.cat", [infl, h, ops] =>
+    let parseT (s : String) : Option XrefT.TOp :=
+      match s.toList with
+      | ['c'] => some .clear
+      | ['C'] => some .catalog
+      | ['I'] => some .info
+      | ['N'] => some .numObjects
+      | ['T'] => some .trailer
+      | 'g' :: r => (String.ofList r).toInt?.map .get
+      | _ => none
+    match parseInflate infl, unhexN h, (ops.splitOn ",").mapM parseT with
+    | some infl, some bs, some ops =>
+      some (match XrefT.tsession (mkExt infl) true bs ops with
+        | .error _ => "open-err"
+        | .ok res =>
+          let ver := match XrefT.versionOf bs with
+            | some (a, b) => s!"ver={a}.{b}"
+            | none => "ver=?"
+          ver ++ " " ++ ",".intercalate (res.map fun r => match r with
+            | .nothing => "-"
+            | .noInfo => "nil"
+            | .num n => s!"#{n}"
+            | .val none => "e"
+            | .val (some v) => showD v))
     | _, _, _ => none
   | "c04.nest", [d, top, ops] =>
     let parseOp (s : String) : Option XrefNest.Op :=
